@@ -176,6 +176,7 @@ def build_controller(cfg, sel):
         'node_type': [n[0] for n in cfg['nodes']],
         'quad_type': [n[1] for n in cfg['nodes']],
         'initial_guess': 'spread',
+        'do_coll_update': bool(cfg.get('do_coll_update', False)),
     }
     sw = setup.sweeper
     if sw in ('gi', 'imex'):
@@ -416,6 +417,20 @@ def run_case(arg):
         tol_du = C1 * oc.EPS * (1.0 + gain) * mag + (gain * NEWTON_TOL * 4 if setup.newton else 0.0)
         rs.stages('IT_FINE')
         err_du = float(np.max(np.abs(rs.values(0) - Ustar)))
+        # the end value belongs to a level's fixed point as well (it is what the next step of a block receives): on a rule
+        # whose last node is the right end point, the end value formed by the collocation update (quadrature of the
+        # right-hand sides plus the FAS correction) equals the last node value at the fixed point
+        if cfg.get('do_coll_update'):
+            for l in range(rs.L):
+                lv = rs.levels[l]
+                if not lv.sweep.coll.right_is_node or lv.u[-1] is None:
+                    continue
+                lv.sweep.compute_end_point()
+                e_end = float(np.max(np.abs(np.asarray(lv.uend).reshape(-1) - np.asarray(lv.u[-1]).reshape(-1))))
+                ratio = e_end / tol_du if np.isfinite(e_end) else np.inf
+                res['ratios']['c1_end_value'] = max(res['ratios'].get('c1_end_value', 0.0), ratio)
+                if not ratio <= 1.0:
+                    viol.append(({'kind': 'end_value_not_at_fixed_point', 'level': l}, {'err': e_end, 'tol': tol_du, 'what': 'collocation-update end value vs last node value after the down-up cycle from the fine collocation solution'}))
         # continue through the fine sweeps of the same iteration
         while rs.S.status.stage != 'IT_CHECK':
             rs.controller.pfasst([rs.S])
@@ -718,6 +733,7 @@ def make_cfg(problem, nodes, finter=False, transfer=None, sizes=None, QI='IE', Q
         'nsweeps': list(nsweeps) if nsweeps is not None else [1] * L,
         'dt': dt,
         'clause3': clause3,
+        'do_coll_update': False,
     }
 
 
@@ -775,6 +791,18 @@ def enumerate_cases(tier):
                         cases.append(('sweeps', make_cfg(pb, base3, fi, QI=QI, QE=QE, nsweeps=nsw)))
                         if nsw[1] == 1 or tier == 'thorough':
                             cases.append(('sweeps', make_cfg(pb, base2, fi, QI=QI, QE=QE, nsweeps=nsw[:1] + [1])))
+    # (e) end-point mode: the collocation update on every level (rules with the right end point as node), node sets with a
+    # non-zero last FAS correction (5 -> 2 nodes) included
+    n52 = [('LEGENDRE', 'RADAU-RIGHT', 5), ('LEGENDRE', 'RADAU-RIGHT', 2)]
+    n532 = [('LEGENDRE', 'RADAU-RIGHT', 5), ('LEGENDRE', 'RADAU-RIGHT', 3), ('LEGENDRE', 'RADAU-RIGHT', 2)]
+    nlob = [('LEGENDRE', 'LOBATTO', 5), ('LEGENDRE', 'LOBATTO', 3)]
+    for pb in PROBLEMS:
+        for ns in (base2, n52, n532, nlob):
+            if tier == 'quick' and pb == 'heat2d_per':
+                continue
+            c = make_cfg(pb, ns, False, clause3=False)
+            c['do_coll_update'] = True
+            cases.append(('endpoint', c))
     # de-duplicate
     seen, out = set(), []
     for grp, c in cases:
@@ -787,6 +815,8 @@ def enumerate_cases(tier):
 
 def sig_of(cfg, v):
     s = {'problem': cfg['problem'], 'nodes': cfg['nodes'], 'sizes': cfg['sizes'], 'transfer': cfg['transfer'], 'finter': cfg['finter'], 'QI': cfg['QI'], 'QE': cfg['QE'], 'nsweeps': cfg['nsweeps']}
+    if cfg.get('do_coll_update'):
+        s['do_coll_update'] = True
     s.update(v)
     return s
 
